@@ -1045,7 +1045,9 @@ class Node:
                     must_keep = True
                 elif isinstance(res, SkipBranch):
                     if res.and_self is False:
-                        remove_nodes = n.children
+                        # Keep this node, but remove its descendants
+                        remove_nodes.extend(n.children)
+                        must_keep = True
                     else:
                         remove_nodes.append(n)
                 elif isinstance(res, StopTraversal):
